@@ -62,8 +62,8 @@ def run(ctx):
         think = THIN[cfg]
         r = rc.tlc_ok(ctx, "RingReplica", cfg, coverage=(cfg == "MC_replica_full.cfg"),
                       subst={"@@THINK@@": think, "@@THINR@@": ctx.seed % think})
-        if cfg == "MC_replica_full.cfg" and r.coverage_zero:
-            raise verif.Inconclusive("actions with zero coverage in %s: %s" % (cfg, r.coverage_zero))
+        if rc.zero_coverage(r):
+            raise verif.Inconclusive("actions with zero coverage in %s: %s" % (cfg, rc.zero_coverage(r)))
         if r.emitted == 0:
             raise verif.Inconclusive("%s emitted no paths" % cfg)
         path_files.append((r.out_path, m, r.emitted, cfg))
